@@ -22,7 +22,8 @@
        int_{-oo}^{+oo} exp(-x^2) dx = sqrt(pi) (not in Coquelicot; C13R_GaussInt.v) and with
        it the GENUINE TWO-DIMENSIONAL normalisation of both Gaussian models over the whole
        plane as an iterated improper Riemann integral (`*_normalised_plane`; for the rotated
-       elliptical model by completing the square, no 2-D change of variables needed).
+       elliptical model by completing the square, no 2-D change of variables needed); the
+       same for MoffatPSF with the class default beta = 2 (rational integrand, atan).
        Also: the error function erf(z) = 2/sqrt(pi) int_0^z exp(-t^2) dt has the four
        properties that the exact development C13_Proofs.v ASSUMES of scipy.special.erf
        (monotone, odd, bounded by 1, tends to +-1), and CircularGaussianPRF / GaussianPRF
@@ -40,9 +41,12 @@
         improper Riemann integrals, x first then y).  Not proved: that this iterated integral
         equals the Lebesgue integral (Tonelli; true since the integrand is >= 0 for flux >= 0),
         nor the integral over a finite disc in Cartesian form.
-     MoffatPSF : only the polar form is proved; its Cartesian sections are Beta-function
-        integrals (not elementary for real beta).  The clause "MoffatPSF integrates to its
-        flux over the plane" stays PARTIAL with exactly this gap: polar_reduction_gap.
+     MoffatPSF : for general beta > 1 only the polar form is proved; its Cartesian sections
+        are Beta-function integrals (not elementary for real beta).  The clause "MoffatPSF
+        integrates to its flux over the plane" stays PARTIAL with exactly this gap:
+        polar_reduction_gap.  For the class default beta = 2 (rational integrand, atan) the
+        Cartesian normalisation over the plane IS proved
+        (moffat_psf_default_beta_normalised_plane), and agrees with the polar value.
      AiryDiskPSF : out of scope (Bessel J1; no Bessel functions in the installed libraries).
 
    Trusted base: the transcription C13R_Model.v (read against the source, statement by
@@ -392,6 +396,14 @@ Theorem gaussian_psf_normalised_plane_RInt_gen : forall flux x_0 y_0 xf yf theta
 Proof. exact gaussian_psf_plane_RInt_gen. Qed.
 Print Assumptions gaussian_psf_normalised_plane_RInt_gen.
 
+(* MoffatPSF with the class default beta = 2 (any alpha > 0, any centre, any flux) integrates
+   to flux over the whole plane; general beta: only moffat_psf_normalised_polar *)
+Theorem moffat_psf_default_beta_normalised_plane : forall flux x_0 y_0 alpha : R,
+  0 < alpha ->
+  is_plane_integral (fun x y => moffat_psf x y flux x_0 y_0 alpha 2) flux.
+Proof. exact moffat2_plane_integral. Qed.
+Print Assumptions moffat_psf_default_beta_normalised_plane.
+
 (* the error function has the four properties that C13_Proofs.v (over Q) assumes of
    scipy.special.erf: erf_monotone, erf_odd, erf_bounded, erf_limits (same shapes) *)
 Theorem erf_has_the_assumed_properties :
@@ -449,6 +461,10 @@ Proof. apply circular_gaussian_psf_normalised_plane. lra. Qed.
 Example rotated_gaussian_psf_normalised :
   is_plane_integral (fun x y => gaussian_psf x y 1000 (7 / 2) (- 2) 3 (3 / 2) 30) 1000.
 Proof. apply gaussian_psf_normalised_plane; lra. Qed.
+
+Example default_moffat_psf_normalised_plane :
+  is_plane_integral (fun x y => moffat_psf x y 1 0 0 1 2) 1.
+Proof. apply moffat_psf_default_beta_normalised_plane. lra. Qed.
 
 Example default_moffat_psf_normalised_polar :
   is_RInt_gen (fun r => 2 * PI * r * moffat_psf (0 + r * cos 0) (0 + r * sin 0) 1 0 0 1 2)
